@@ -15,7 +15,7 @@ PROPS = {
         "level_note": "Trusted: Lean kernel; hand-written model tied by differential runs (not proved against the Rust text); SHA-1 in Lean validated by vectors only (theorems do not depend on it); num-bigint behaviour modelled.",
         "lean_modules": ["Passage.Props.C11"],
         "cases": {"quick": 3000, "thorough": 300000},
-        "rule": "inputs = published vectors + digests searched by brute force for edge prefixes (00, 0000, 0x, ff, ffff, 8000, 7fff) + random (id, secret, key) triples varied independently; non-trivial = every case (each exercises sha1 and formatting); distinct = distinct request lines",
+        "rule": "inputs = published vectors + digests searched by brute force for edge prefixes (00, 0000, 0x, ff, ffff, 8000, 7fff) + random (id, secret, key) triples varied independently; non-trivial = every case (each exercises sha1 and formatting); distinct = distinct request lines; added: the hash as received by a loopback session server from the real MojangAdapter (server ids of 0-64 characters, secret and key different)",
         "trusted_base": TB_COMMON + [
             "SHA-1 is executable Lean code validated by vectors and differential runs, not proved against FIPS 180-4; the format theorems hold for every digest and do not depend on it",
             "num-bigint's from_signed_bytes_be/to_str_radix are modelled (Impl.signedHex) and compared on every case",
@@ -31,7 +31,7 @@ PROPS["C09"] = {
     "level_note": "Trusted: Lean kernel; the protocol table is a hand transcription (no network to consult the wiki); primitives' Rust bodies are modelled by hand and tied by differential runs; compound (NBT) text components go through fastnbt and are not modelled (string form is proved); tokio's Cursor/Vec I/O.",
     "lean_modules": ["Passage.Props.C09"],
     "cases": {"quick": 4000, "thorough": 400000},
-    "rule": "VarInt/VarLong: every group boundary ±1, ±2^k±1, extremes, random with random magnitude; arbitrary ≤12-byte strings through the readers; per packet type boundary-dense field values (empty/multi-byte/long strings around VarInt group boundaries, integer boundaries, every enum ordinal, None/Some) encoded with the real writer and decoded back (1/3 with trailing bytes), truncations, enum ordinals outside the table, invalid UTF-8; non-trivial = every case except unit packets; distinct = distinct request lines",
+    "rule": "VarInt/VarLong: every group boundary ±1, ±2^k±1, extremes, random with random magnitude; arbitrary ≤12-byte strings through the readers; per packet type boundary-dense field values (empty/multi-byte/long strings around VarInt group boundaries, integer boundaries, every enum ordinal, None/Some) encoded with the real writer and decoded back (1/3 with trailing bytes), truncations, enum ordinals outside the table, invalid UTF-8; non-trivial = every case except unit packets; distinct = distinct request lines; added: strings of 65535-98301 bytes; hand-made images with out-of-range ordinals or invalid UTF-8 must be refused (oracle)",
     "trusted_base": TB_COMMON + [
         "protocol table (lean/Passage/Codec/Packets.lean) is a hand transcription of the Java-edition protocol",
         "compound (NBT) text components are not modelled (fastnbt oracle); string-tag form is proved",
@@ -73,7 +73,7 @@ PROPS["C05"] = {
     "level_note": "Trusted: Lean kernel; tokio's write_all/read_exact loops are modelled (writeAll/readAll) and tied by the differential runs; AES-128 in Lean validated by FIPS-197/SP800-38A vectors and differential runs, not proved; the cfb8/aes crates.",
     "lean_modules": ["Passage.Props.C05"],
     "cases": {"quick": 2500, "thorough": 60000},
-    "rule": "sessions of 1..6 operations (write_all of 1..600 bytes (thorough ..4096) under schedules: one byte per write, whole buffer, 1-3, 1-16, random sizes, Pending interleaved, zero-length acceptance, schedules one byte short; reads via read and read_exact over chunks of 1/16/1..80 bytes with Pending), random 16-byte secrets, switch to ciphertext at a random operation or never; non-trivial = every session; distinct = distinct request lines",
+    "rule": "sessions of 1..6 operations (write_all of 1..600 bytes (thorough ..4096) under schedules: one byte per write, whole buffer, 1-3, 1-16, random sizes, Pending interleaved, zero-length acceptance, schedules one byte short; reads via read and read_exact over chunks of 1/16/1..80 bytes with Pending), random 16-byte secrets, switch to ciphertext at a random operation or never; non-trivial = every session; distinct = distinct request lines; added: vectored writes (1-4 slices, one byte per poll); writes of 4096, 4097, 5000, 8193, 10000 bytes; a write abandoned while pending followed by other bytes of the same length; connection-level runs with the Encryption Response and the first encrypted frames in one segment",
     "trusted_base": TB_COMMON + ["AES-128 (Lean) validated by published vectors + differential runs only", "tokio write_all/read_exact loop semantics modelled"],
     "assumptions": ["the transport reports honestly how many bytes it accepted"],
 }
@@ -165,7 +165,7 @@ PROPS["C04"] = {
     "level_note": "Trusted: Lean kernel; L1 hand-written, tied by differential runs; panic-site patterns of the extractor; std/tokio Vec growth policy (bound 4*(max+5)+64KiB per single allocation in the oracle); third-party crates covered by runs only.",
     "lean_modules": ["Passage.Props.C04"],
     "cases": {"quick": 1600, "thorough": 300000},
-    "rule": "legal transcripts (all intents, cookies, long hosts/names) with one mutation: outer length -1/MIN/0/max/max+1/2^31-1/off-by-one/over-long 5-byte VarInt; first inner length -1/MIN/2^31-1/2^30/remaining(+1)/70000; truncation at a random offset + EOF; invalid UTF-8; enum ordinals out of range; garbage RSA blocks and secrets of 0/1/15/17/100 bytes; random bytes before and after the cipher switch; EOF at any step; max frame 64..100000; non-trivial = every mutated scenario; distinct = distinct request lines",
+    "rule": "legal transcripts (all intents, cookies, long hosts/names) with one mutation: outer length -1/MIN/0/max/max+1/2^31-1/off-by-one/over-long 5-byte VarInt; first inner length -1/MIN/2^31-1/2^30/remaining(+1)/70000; truncation at a random offset + EOF; invalid UTF-8; enum ordinals out of range; garbage RSA blocks and secrets of 0/1/15/17/100 bytes; random bytes before and after the cipher switch; EOF at any step; max frame 64..100000; non-trivial = every mutated scenario; distinct = distinct request lines; added after the seeded-change rounds: Encryption Responses carrying a prefix (0, 1, 16, 31 bytes) or an extension of the issued token; Transfer-intent cookies that are valid / expired / bound to another address / signed with another secret, whose name and UUID overlap the claim in every combination; added after the seeded-change rounds: tag alterations a weakened comparison would accept (same bit in two bytes, bytes swapped, one byte at 0/15/16/31, zeroed tag, byte inserted), applied to otherwise acceptable cookies; cookie/claim identity overlaps; up to six cases per run in which the client holds the cookie back for 2.6 s of real time across its expiry; oracle: the cookie is only ever requested on a Transfer with a configured secret, and the authentication service is asked about the claimed identity; added: strategy must have been consulted for every Transfer; messages and locales with multi-byte characters; the built-in localisation model is compared with the real adapter on four calls per table set (c03.loc); added: locales with multi-byte characters; half of the legal runs end in a message of the REAL built-in localisation; a 60 s real-time watchdog reports a handler that spins; added: unknown next-state ordinals (0, 4, 5, -1, 127, 128, 255, i32::MAX/MIN); every invalid Encryption Response kind, also on connections presenting a valid cookie; added: configured expiries up to u64::MAX; the cookie rules are judged on the second (cookie-authenticated) connection too",
     "trusted_base": TB_COMMON + [
         "L1 = frame assembler + L0 machine, hand transliteration of receive_packet/next_frame/send_packet; tied by differential byte-level runs of the real Connection (segmented writes, throttled transport, counting allocator, catch of task panics)",
         "Env oracles as for the frame-level properties; tokio select!/take/read_buf semantics modelled",
@@ -181,7 +181,7 @@ PROPS["C08"] = {
     "level_note": "Trusted: Lean kernel; L1 hand-written (the handler never reads beyond the frame it assembles, so byte-at-a-time consumption is its observable semantics) and tied by differential runs; tokio select! drops the losing future (modelled as cancel); duplex pipe and paused clock.",
     "lean_modules": ["Passage.Props.C08"],
     "cases": {"quick": 200, "thorough": 40000},
-    "rule": "base scenarios (status, login, transfer with cookie, long hosts/names so that length prefixes have two bytes, keep-alive traffic and ignorable frames during routing) x variants: one split per frame at a random offset, one byte at a time, random multi-splits, adapter completion or tick moved inside the preceding frame (body) or inside its length prefix, throttled writes (1-5 bytes then Pending) with the sending future dropped by an adapter completion; non-trivial = every variant other than the unsegmented base; distinct = distinct request lines",
+    "rule": "base scenarios (status, login, transfer with cookie, long hosts/names so that length prefixes have two bytes, keep-alive traffic and ignorable frames during routing) x variants: one split per frame at a random offset, one byte at a time, random multi-splits, adapter completion or tick moved inside the preceding frame (body) or inside its length prefix, throttled writes (1-5 bytes then Pending) with the sending future dropped by an adapter completion; non-trivial = every variant other than the unsegmented base; distinct = distinct request lines; added classes: coalesced (runs of frames in one write, cipher switch inside), completion-swapped (an ignored packet just after instead of just before an adapter completion), tick-in-pause (client pauses across a tick before Login Acknowledged / Client Information), cancelled-unanswered Keep Alive; an ignorable packet in every routing stage",
     "trusted_base": TB_COMMON + [
         "L1 = frame assembler + L0 machine, hand transliteration of receive_packet/next_frame/send_packet; tied by differential byte-level runs of the real Connection (segmented writes, throttled transport, counting allocator, catch of task panics)",
         "Env oracles as for the frame-level properties; tokio select!/take/read_buf semantics modelled",
@@ -197,7 +197,7 @@ PROPS["C12"] = {
     "level_note": "Trusted: Lean kernel; the url/reqwest crates' query serialisation is modelled (Url.enc) and compared on every case; the hook replaces scheme and authority of the session URL only (path and query untouched); hyper's request-line formatting.",
     "lean_modules": ["Passage.Props.C12"],
     "cases": {"quick": 1200, "thorough": 300000},
-    "rule": "names from a list of delimiter/injection strings (&, =, #, ?, %, +, space, /, control characters, %26 look-alikes, multi-byte UTF-8, full injection attempts), pairs of them, random printable ASCII, ordinary names; server ids incl. ones with delimiters; random secrets and key encodings; replies profile/204/500/non-JSON; non-trivial = names with a non-alphanumeric character; distinct = distinct request lines",
+    "rule": "names from a list of delimiter/injection strings (&, =, #, ?, %, +, space, /, control characters, %26 look-alikes, multi-byte UTF-8, full injection attempts), pairs of them, random printable ASCII, ordinary names; server ids incl. ones with delimiters; random secrets and key encodings; replies profile/204/500/non-JSON; non-trivial = names with a non-alphanumeric character; distinct = distinct request lines; added: expected hash from an independent reference; eleven server ids configured through the environment layer (Config::read -> DynAuthenticationAdapter::from_config); 24+ connection-level logins presenting cookies of another name (claimed-name rule)",
     "trusted_base": TB_COMMON + ["url/reqwest/hyper request construction (captured request line compared with the model)", "verif-hooks: PASSAGE_VERIF_SESSION_BASE replaces scheme+authority only"],
     "assumptions": ["the session server parses the query as application/x-www-form-urlencoded"],
 }
@@ -234,7 +234,7 @@ PROPS["C07"] = {
     "level_note": "Trusted: Lean kernel; tokio Interval semantics (period, first tick immediate, Skip) are modelled as one tick input per period while the handler waits for input and tied by the virtual-time runs; inline-awaited adapters return promptly; keep-alive ids distinct (elapsed milliseconds).",
     "lean_modules": ["Passage.Props.C07"],
     "cases": {"quick": 400, "thorough": 100000},
-    "rule": "login to the configuration phase, then a timeline: Client Information at 50 ms / 5 s / 20 s / 40 s, discovery/filter/strategy latencies from {0, 3, 17, 33, 70 s} (thorough up to 40 periods), per Keep Alive an echo policy (prompt +150 ms, delayed 8 s / 15.7 s, duplicate, and in 40% of scenarios one Keep Alive late +16.15 s / never / wrong id), optional unsolicited echo; events at ms offsets away from tick instants; non-trivial = every scenario with at least one tick; distinct = distinct request lines",
+    "rule": "login to the configuration phase, then a timeline: Client Information at 50 ms / 5 s / 20 s / 40 s, discovery/filter/strategy latencies from {0, 3, 17, 33, 70 s} (thorough up to 40 periods), per Keep Alive an echo policy (prompt +150 ms, delayed 8 s / 15.7 s, duplicate, and in 40% of scenarios one Keep Alive late +16.15 s / never / wrong id), optional unsolicited echo; events at ms offsets away from tick instants; non-trivial = every scenario with at least one tick; distinct = distinct request lines; added: a Keep Alive written a few bytes at a time across an adapter completion (back-pressure) and never answered must time out as without back-pressure",
     "trusted_base": TB_COMMON + ["tokio Interval/paused-clock semantics (ticks delivered one per period by the harness, as under real time)", "Env oracles as for the frame-level properties"],
     "assumptions": ["the client reads what it is sent (no back-pressure)", "EnvSane: backend services never report MissedKeepAlive themselves"],
 }
@@ -251,7 +251,7 @@ PROPS["C14"] = {
     "level_note": "Partial by nature: the timers are tokio's and the clock is real — the model carries which waits are under which deadline; elapsed times are sampled with 350 ms tolerance. Trusted: Lean kernel; extraction patterns; cookie ages kept ≥ 5 s from the boundary; the keep-alive-for-ever client (first Keep Alive after 16 s) runs in the thorough tier only.",
     "lean_modules": ["Passage.Props.C14"],
     "cases": {"quick": 36, "thorough": 1500},
-    "rule": "one third limit probes (configured max from {64..100000}, declared length max-1/max/max+1/10000/10001/random), one third cookie probes (configured expiry from {30, 600, 21600, 100000} s, age around it and around the default, 1 in 4 with a foreign secret), one third deadline probes (timeout 1 s / 2 s; PROXY off: silent, drip, after Login Start, in configuration with a gated backend, or a finishing status client; PROXY on: header withheld, partial header, header after 800 ms then silent / login / configuration / finishing); thorough adds two 18–20 s keep-alive-answering clients; every case is non-trivial; distinct = distinct request lines",
+    "rule": "one third limit probes (configured max from {64..100000}, declared length max-1/max/max+1/10000/10001/random), one third cookie probes (configured expiry from {30, 600, 21600, 100000} s, age around it and around the default, 1 in 4 with a foreign secret), one third deadline probes (timeout 1 s / 2 s; PROXY off: silent, drip, after Login Start, in configuration with a gated backend, or a finishing status client; PROXY on: header withheld, partial header, header after 800 ms then silent / login / configuration / finishing); thorough adds two 18–20 s keep-alive-answering clients; every case is non-trivial; distinct = distinct request lines; added fixed probes: no secret configured (empty-key cookie), the server-issued cookie 1 s / 4 s later under a 600 s / 2 s expiry, idle after a completed status exchange",
     "trusted_base": TB_LISTENER,
     "assumptions": ["loopback latency and scheduling noise stay below the 350 ms tolerance"],
     "timeout": {"quick": 1800, "thorough": 7200},
@@ -264,7 +264,7 @@ PROPS["C15"] = {
     "level_note": "Trusted: Lean kernel; the PROXY parser (crate proxy-header 0.1.2) is modelled (greeting, version gate, v2 command/family/length, v1 field splitting and decimal ports, 107-byte cap) and the model classifies the raw first segment of every connection itself; only std::net's text-to-address conversion for v1 is recorded from the real code and handed to the model; limiter window 3600 s (20 s through passage::start) so all arrivals share one window (the limiter's time behaviour is C13's subject).",
     "lean_modules": ["Passage.Props.C15", "Passage.Props.C15Proxy"],
     "cases": {"quick": 40, "thorough": 1500},
-    "rule": "random PROXY setting (on 3 in 4; allowed versions v1+v2 / v1 / v2), limiter off (1 in 5) or limit 1–3, 4–14 sequential connections each from one of three loopback peers with a header drawn from three hot menu entries (2 in 3) or the whole menu, 1 in 3 with a final full login; non-trivial = every history; distinct = distinct request lines",
+    "rule": "random PROXY setting (on 3 in 4; allowed versions v1+v2 / v1 / v2), limiter off (1 in 5) or limit 1–3, 4–14 sequential connections each from one of three loopback peers with a header drawn from three hot menu entries (2 in 3) or the whole menu, 1 in 3 with a final full login; non-trivial = every history; distinct = distinct request lines; added: a quarter of the histories through passage::start(Config) (20 s window, 60 ms pauses); limit 0; a turned-away socket must be released (further writes fail); the header class is computed by the PROXY parser model from the raw first segment",
     "trusted_base": TB_LISTENER + ["std::net Ipv4Addr/Ipv6Addr::from_str (verdicts on the address texts recorded from the real code); crate proxy-header is modelled and compared on every connection's raw first segment"],
     "assumptions": ["connections arrive one after another (each verdict awaited) so the arrival order is defined"],
     "timeout": {"quick": 1800, "thorough": 14400},
@@ -277,7 +277,7 @@ PROPS["C16"] = {
     "level_note": "Partial by nature: the proof is about the await structure; tokio's scheduler fairness, the kernel accept queue and CPU starvation are outside it and sampled by the real runs.",
     "lean_modules": ["Passage.Props.C16"],
     "cases": {"quick": 40, "thorough": 1200},
-    "rule": "PROXY on 2 in 3, limiter on 1 in 2, 0–4 stalled clients each at a random stage of the menu for that setting; non-trivial = at least one stalled client; distinct = distinct stage lists",
+    "rule": "PROXY on 2 in 3, limiter on 1 in 2, 0–4 stalled clients each at a random stage of the menu for that setting; non-trivial = at least one stalled client; distinct = distinct stage lists; added stages: half-closed mid-frame, burst of 24 connect-and-reset, client that requests a 200 KB status with a 1 KB receive window and never reads; limiter budget 2; idle gap longer than the (1 s) timeout before the well-behaved client; CPU burnt by the server thread while every connection is stalled must stay below 200 ms per 300 ms",
     "trusted_base": TB_LISTENER,
     "assumptions": ["a runtime worker is available to the accept loop (no CPU starvation)"],
     "timeout": {"quick": 1800, "thorough": 14400},
@@ -290,7 +290,7 @@ PROPS["C17"] = {
     "level_note": "Partial by nature: interleavings are modelled at the granularity of awaits; the kernel may complete the TCP handshake of a late connection (not served means never accepted); timing by real clock.",
     "lean_modules": ["Passage.Props.C17"],
     "cases": {"quick": 24, "thorough": 600},
-    "rule": "the race schedule first, then random cases: 0–4 in-flight clients with stages from {accepted, mid-login, backend, backend, transfer}, 0–2 late connections, backend opening 0/300/600 ms after the stop; connection timeout 2 s; non-trivial = every case with an in-flight client or a late connection; distinct = distinct request lines",
+    "rule": "the race schedule first, then random cases: 0–4 in-flight clients with stages from {accepted, mid-login, backend, backend, transfer}, 0–2 late connections, backend opening 0/300/600 ms after the stop; connection timeout 2 s; non-trivial = every case with an in-flight client or a late connection; distinct = distinct request lines; added: PROXY on with a client whose header is outstanding at the stop; the same Listener started and stopped once before (restart=1) and started again afterwards while late clients keep waiting (again=1); one 15 s-timeout case with a backend answering 11.5 s after the stop; passage::start stopped by a real SIGINT mid-login (c17.app)",
     "trusted_base": TB_LISTENER,
     "assumptions": ["in-flight clients cooperate after the stop (those that do not are bounded by the connection timeout)"],
     "timeout": {"quick": 1800, "thorough": 14400},
